@@ -147,6 +147,32 @@ def credit_for(u, rules, parsed):
     return credit
 
 
+def _compounds(sl, inside_pseudo=False):
+    """all compounds of a parsed selector list, including those inside selector pseudos: (compound, inside_pseudo)"""
+    for cx in sl:
+        for comb, cp in cx:
+            yield cp, inside_pseudo
+            for s in cp:
+                if s[0] == "pc" and len(s) > 2 and isinstance(s[2], tuple) and s[2][0] == "sel":
+                    for x in _compounds(s[2][1], True):
+                        yield x
+
+
+def shape_facts(rules, parsed):
+    """structural facts used to key known findings narrowly"""
+    targets = {t for r in rules for t, _ in r["extends"]}
+    two = False
+    inside = False
+    for i, r in enumerate(rules):
+        for cp, in_pseudo in _compounds(parsed[i]):
+            names = {sel.simple_text(s) for s in cp if s[0] != "pc" or len(s) <= 2 or not isinstance(s[2], tuple)}
+            if len(names & targets) >= 2:
+                two = True
+            if in_pseudo and r["extends"] and names & targets:
+                inside = True
+    return {"two_targets_in_one_compound": two, "extender_has_target_inside_pseudo": inside}
+
+
 def single_compound(sl):
     return all(len(cx) == 1 for cx in sl)
 
@@ -264,7 +290,7 @@ def judge_sheet(sh, al, rules, res, text, nodes, reversed_res=None):
                     v = (sel.subset_violation(us, sa, sb) if sb else (sa and True)) or (sel.subset_violation(us, sb, sa) if sa else (sb and True))
                     if v:
                         sh.violation("order-dependent:" + h, "rule %d is rewritten to `%s` in source order but to `%s` when the rules are reversed (different match sets)\n%s" % (
-                            i, ", ".join(outs.get(i, [])), ", ".join(o2.get(i, [])), text), rp, dict(facts, rule=i, all_extenders_single_compound=all_single))
+                            i, ", ".join(outs.get(i, [])), ", ".join(o2.get(i, [])), text), rp, dict(facts, rule=i, all_extenders_single_compound=all_single, **shape_facts(rules, parsed)))
                         return
         except (cssread.CssError, sel.SelError, ValueError):
             sh.inconc("reversed-unparsed")
